@@ -6,7 +6,7 @@ Lists2 == ListsUpTo(2)
 Lists3 == ListsUpTo(3)
 ListsAll == ListsUpTo(7)
 AllKinds == {"one_field", "many_fields", "union", "fragment", "scalar", "arguments", "subscription", "typename_and_field", "only_typename",
-             "root_fragment_two_fields", "string_literals", "required_arguments", "optional_arguments"}
+             "root_fragment_two_fields", "string_literals", "required_arguments", "optional_arguments", "custom_scalar_result", "custom_scalar_list_result"}
 NoDev == {}
 Seeded == {"ops_module_only_with_init"}
 PL == IF IOEnv.LISTS = "3" THEN Lists3 ELSE Lists2
